@@ -762,6 +762,11 @@ func (t *Translator) applyContract(st *State, callee *ssa.Function, spec *FuncSp
 				}
 			}
 		}
+		if spec.Functional != "" && len(res) == 1 {
+			// justified by registerFunctional's check: the result is a function of the arguments
+			t.vc.declareSpecFun(t.w, spec.Functional)
+			t.assumeL(st, g("(= "+res[0]+" ("+spec.Functional+" "+strings.Join(args, " ")+"))"), fmt.Sprintf("call%d.functional", t.curCallOrd))
+		}
 		for _, c := range spec.Ensures {
 			if use != nil && !use[c.Label] {
 				continue // relevance filter written in the caller's contract (dropping an assumption is sound)
